@@ -52,10 +52,10 @@ class LitEvent(LitBase):
         body = lazy.Denote(lazy.events(c1, L), b) == z3.If(
             is_VNone(iv), lazy.Denote(lazy.events(c0, L), b),
             z3.Store(lazy.Denote(lazy.events(c0, L), b), iv, z3.BoolVal(self.which == "add")))
-        try:
-            dstep = z3.ForAll([b], body, patterns=[lazy.Denote(lazy.events(c1, L), b)])
-        except z3.Z3Exception:      # explicit post-state term contains an if-then-else: not a legal trigger
-            dstep = z3.ForAll([b], body)
+        from pyvc.core import legal_pattern
+        pat = lazy.Denote(lazy.events(c1, L), b)
+        # (an explicit post-state term may contain an if-then-else: not a legal trigger)
+        dstep = z3.ForAll([b], body, patterns=[pat]) if legal_pattern(pat) else z3.ForAll([b], body)
         return {"queued": lazy.events(c1, L) == z3.If(is_VNone(iv), lazy.events(c0, L),
                                                        z3.Concat(lazy.events(c0, L), z3.Unit(ev))),
                 # consequence of the definition of Denote, stated here so that callers need not unfold it
